@@ -137,3 +137,4 @@ package lib
 //@   nopanic
 //@   loop 1 invariant[inbounds] 0 <= offset && offset <= len(b)
 //@   loop 1 decreases len(b) - offset
+//@   loop 1 iterensures[maxfield] wireType == 2 ==> l <= protoMaxFieldBytes
